@@ -482,7 +482,10 @@ def compile_augassign_expression(compiler, expr, root, target, values):
         )
 
     op = a_ops[root][0]
-    target = compiler._storeize(target, compiler.compile(target))
+    st_target = compiler._storeize(target, compiler.compile(target))
+    if not isinstance(st_target, (ast.Name, ast.Attribute, ast.Subscript)):
+        compiler._syntax_error(target, f"illegal target for `{root}`")
+    target = st_target
     ret = compiler.compile(values[0])
     return ret + asty.AugAssign(expr, target=target, value=ret.force_expr, op=op())
 
@@ -561,6 +564,8 @@ def compile_assign(
            for t in (target if chained else [target])]
 
         if ann is not None:
+            if not isinstance(st_targets[0], (ast.Name, ast.Attribute, ast.Subscript)):
+                compiler._syntax_error(target, "illegal target for annotated assignment")
             ann_result = compiler.compile(ann)
             result = ann_result + result
 
